@@ -41,6 +41,9 @@ type c17Handler struct {
 	release chan struct{}
 	mu      sync.Mutex
 	atGate  int
+	// ext enables two further marks (used by C20): 'R' answers RESTART (the reply carries number 1
+	// again) and stays registered, 'N' stays registered without answering at all
+	ext bool
 }
 
 func (h *c17Handler) hold() {
@@ -66,6 +69,15 @@ func (h *c17Handler) Handle(resp tq.Response, req tq.Request) {
 	}
 	if mark == 'C' {
 		resp.Next(h)
+	}
+	if h.ext && mark == 'R' {
+		resp.Next(h)
+		resp.Reply(tq.NewAuthenReply(tq.SetAuthenReplyStatus(tq.AuthenStatusRestart)))
+		return
+	}
+	if h.ext && mark == 'N' {
+		resp.Next(h)
+		return
 	}
 	resp.Reply(&rawBody{B: []byte{1, 0, 0, 0, 0, 0}})
 	if mark == 'H' {
